@@ -44,7 +44,7 @@ ASSUMPTIONS = [
     're-executing sampled sequences from scratch)',
 ]
 ANCHORS = ['Table.filter', 'Table.update_ids', 'Table._index_ids', 'errcheck', 'Table.merge', 'Table.concat', 'Table.collapse', 'Table.partition', 'Table.subsample', 'Table.transform']
-REQUIRED = ['tables_built_from_one_matrix_object',
+REQUIRED = ['pairwise_variants_checked', 'tables_built_from_one_matrix_object',
             'tables_built_over_matrix_data', 'steps', 'earlier_tables_rechecked', 'refused_then_checked', 'oracle_runs', 'invariant_evaluations',
             'absent_id_probes', 'stale_id_probes', 'layout_csc_seen',
             'layout_unsorted_seen', 'empty_table_states', 'io_steps',
@@ -248,16 +248,33 @@ def oracle(ctx, t, r, ever, desc):
             k = len(ids[ax])
             if k > 4:
                 continue
-            pairs = list(t.iter_pairwise(axis=ax))
-            exp = [(a, b) for a in range(k) for b in range(a + 1, k)]
-            got = [(str(x[1]), str(y[1])) for x, y in pairs]
-            if got != [(ids[ax][a], ids[ax][b]) for a, b in exp]:
-                bad('iter_pairwise', '%s pairs %r' % (ax, got))
-            for (x, y), (a, b) in zip(pairs, exp):
-                for (v, i, e), kk in ((x, a), (y, b)):
-                    ref = D[kk, :] if ax == 'observation' else D[:, kk]
-                    if not snap.bits_equal(np.asarray(v).reshape(-1), ref):
-                        bad('iter_pairwise-vector', '%s %r' % (ax, i))
+            # the documented selections: upper triangle (default), with the
+            # diagonal, or every ordered pair; dense or sparse vectors
+            combos = [(True, False, True)]
+            if r is not None:
+                combos.append((r.random() < .5, r.random() < .5,
+                               r.random() < .5))
+            for tri, diag, dense in combos:
+                kw = {} if (tri, diag, dense) == (True, False, True) else \
+                    dict(tri=tri, diag=diag, dense=dense)
+                pairs = list(t.iter_pairwise(axis=ax, **kw))
+                exp = [(a, b) for a in range(k) for b in range(k)
+                       if (b > a) or (diag and a == b) or
+                       (not tri and b < a)]
+                got = [(str(x[1]), str(y[1])) for x, y in pairs]
+                if got != [(ids[ax][a], ids[ax][b]) for a, b in exp]:
+                    bad('iter_pairwise', '%s pairs %r (tri=%r diag=%r)' %
+                        (ax, got, tri, diag))
+                for (x, y), (a, b) in zip(pairs, exp):
+                    for (v, i, e), kk in ((x, a), (y, b)):
+                        ref = D[kk, :] if ax == 'observation' else D[:, kk]
+                        if not dense:
+                            v = v.toarray()
+                        if not snap.bits_equal(np.asarray(v).reshape(-1),
+                                               ref):
+                            bad('iter_pairwise-vector', '%s %r' % (ax, i))
+                if kw:
+                    ctx.count('pairwise_variants_checked')
     if n and m:
         checks.append(c_pairwise)
 
